@@ -125,7 +125,7 @@ public:
     const int elems = static_cast<int>(c.C("elems", 4));
     auto anyH = [&] { return static_cast<int64_t>(r.Below(std::max<size_t>(1, H.size()))); };
     if (H.size() < 2) { op.kind = "Val"; op.n = { r.Range(0, elems) }; return true; }
-    if (H.size() >= maxHandles) { op.kind = "DropHandle"; op.n = { anyH() }; return true; }
+    if (H.size() >= maxHandles || TotalWeight() > 9000) { op.kind = "DropHandle"; op.n = { anyH() }; if (H.size() < maxHandles) { size_t big = 0; for (size_t i = 0; i < H.size(); ++i) if (Weight(H[i].m) > Weight(H[big].m)) big = i; if (r.Pct(70)) op.n = { static_cast<int64_t>(big) }; } return true; }
     for (int attempt = 0; attempt < 20; ++attempt) {
       const std::vector<int> w{ (int)c.C("w_build"), (int)c.C("w_lazy"), (int)c.C("w_alg"), (int)c.C("w_mut"), (int)c.C("w_iter"), (int)c.C("w_copy"), (int)c.C("w_hold") };
       const size_t fam = r.Weighted(w);
@@ -203,7 +203,11 @@ public:
     op.kind = "Val"; op.n = { r.Range(0, elems) }; return true;
   }
 
+  // bookkeeping of the heap's size (model nodes): every live handle is re-enumerated after every step, so the heap is kept affordable
+  static size_t Weight(const MV& m) { size_t w = 1; for (auto& i : m.items) w += Weight(i); return w; }
+  size_t TotalWeight() const { size_t w = 0; for (auto& h : H) w += Weight(h.m); return w; }
   void Push(Ctx& c, Handle h, const std::string& kind) {
+    if (Weight(h.m) > 4000 || TotalWeight() + Weight(h.m) > 12000) { c.Probe("result_too_big_for_the_heap_skipped"); return; }
     if (auto bad = Equals(h.v, h.m)) { c.Fail("C15", "result_value", kind, kind + " result differs from model: " + *bad + " (type " + h.ty + ", model " + h.m.Str() + ")"); return; }
     H.push_back(std::move(h));
   }
